@@ -391,7 +391,8 @@ func fnSetBit(ctx *cmdContext, args map[string]any) (output respValue, err error
 	offset64 := args["offset"].(int64)
 	value64 := args["value"].(int64)
 
-	if offset64 < 0 {
+	if offset64 < 0 || offset64 >= 4*1024*1024*1024 {
+		// strings are limited to 512MB, which is 2^32 bits
 		output.data = respErrorString("ERR bit offset is not an integer or out of range")
 		return
 	}
